@@ -226,7 +226,8 @@ func wireOps() []wireOp {
 		{"devicepoll", "", func(i *wireInst, mk string) error {
 			ctx, cancel := context.WithTimeout(bg, 20*time.Second)
 			defer cancel()
-			_, err := rp.DeviceAccessToken(ctx, "dc-"+mk, time.Millisecond, i.rp)
+			// the helper gives every poll a time-out equal to the interval: not too short, or a loaded machine makes it poll twice
+			_, err := rp.DeviceAccessToken(ctx, "dc-"+mk, 10*time.Millisecond, i.rp)
 			return err
 		}},
 		{"code", "", func(i *wireInst, mk string) error {
@@ -333,7 +334,16 @@ func runWire(run *ev.Run) {
 		ok = !catchExtra(run, func() { err = o.Do(i, mk) })
 		return i.rt.take(), errStr(err), ok
 	}
-	normAll := func(w []string, mk string) string { return norm(strings.Join(w, "\n"), mk) }
+	// consecutive identical requests count once: a helper that polls or retries after its own time-out repeats itself
+	normAll := func(w []string, mk string) string {
+		var u []string
+		for _, r := range w {
+			if len(u) == 0 || u[len(u)-1] != r {
+				u = append(u, r)
+			}
+		}
+		return norm(strings.Join(u, "\n"), mk)
+	}
 
 	// baselines: each call twice on each instance before anything else in this part
 	baseline := map[string]string{}
